@@ -18,6 +18,7 @@ enum { VF_K_READ = 0, VF_K_OP = 1, VF_K_ARG = 2, VF_K_ALLOC = 3, VF_K_CALL = 4, 
 static int vf_prefix[VF_MAXCH], vf_prefix_len;
 static int vf_tr_choice[VF_MAXCH], vf_tr_n[VF_MAXCH], vf_tr_kind[VF_MAXCH], vf_tr_len;
 static int vf_budget[VF_NKINDS], vf_budget_total = 0;
+static int vf_kind_free[VF_NKINDS];   /* kinds whose non-default answers do not count as deviations */
 static int vf_explore_off = 0;         /* 1: every choice answers 0, nothing recorded */
 static long vf_executions, vf_choice_points, vf_trunc_choices;
 static int vf_overflow;                /* an execution had more than VF_MAXCH choice points */
@@ -63,18 +64,17 @@ static void vf_explore_rec(vf_run_fn run, const int *prefix, int plen, const int
 	memcpy(choice, vf_tr_choice, sizeof(int) * (size_t)len);
 	memcpy(n, vf_tr_n, sizeof(int) * (size_t)len);
 	memcpy(kind, vf_tr_kind, sizeof(int) * (size_t)len);
-	if (used_total + 1 > vf_budget_total)
-		return;
 	for (i = plen; i < len; i++) {
 		int k = kind[i];
 		int used2[VF_NKINDS];
-		if (used[k] + 1 > vf_budget[k])
+		int cost = vf_kind_free[k] ? 0 : 1;
+		if (used[k] + 1 > vf_budget[k] || used_total + cost > vf_budget_total)
 			continue;
 		memcpy(used2, used, sizeof used2);
 		used2[k]++;
 		for (alt = 1; alt < n[i]; alt++) {
 			choice[i] = alt;
-			vf_explore_rec(run, choice, i + 1, used2, used_total + 1);
+			vf_explore_rec(run, choice, i + 1, used2, used_total + cost);
 		}
 		choice[i] = 0;
 	}
